@@ -242,6 +242,30 @@ class Monitor:
         if c["base"] in VOL_F:
             res.count("judged_volume")
 
+    def _count_long(self, c, what, released=False):
+        """Counters of the long-run stratum: decisions on time thresholds of at least 1000 s."""
+        if c["base"] not in TIME_F or c["T"] < 1000:
+            return
+        res = self.res
+        if what == "eval":
+            res.count("long_evals_judged")
+            if c["clock"] >= 1000:
+                res.count("long_evals_judged_clock_ge_1000s")
+            if c["clock"] >= 10000:
+                res.count("long_evals_judged_clock_ge_10000s")
+            if released:
+                res.count("long_releases_judged")
+            return
+        res.count("long_starts_judged")
+        res.count("long_starts_judged_" + c["kind"])
+        res.count("long_starts_judged_base_" + c["base"])
+        if c["T"].denominator != 1:
+            res.count("long_starts_judged_fractional_seconds")
+        if c["T"] >= 10000:
+            res.count("long_starts_judged_ge_10000s")
+        if c["clock"] - c["T"] < TENTH + Fraction(1, 1000):
+            res.count("long_starts_within_one_tick_of_threshold")
+
     # ---- hooks
     def on_itick_begin(self, interp):
         self.itick += 1
@@ -265,6 +289,7 @@ class Monitor:
             res.count("threshold_evals_judged")
             self.judged += 1
             self._count_ctx(c)
+            self._count_long(c, "eval", released=not result)
             if c["clock"] == c["T"]:
                 res.count("evals_clock_equals_threshold")
             expected = c["clock"] < c["T"]
@@ -299,6 +324,7 @@ class Monitor:
             else:
                 res.count("threshold_starts_judged")
                 self.judged += 1
+                self._count_long(c, "start")
                 if c["clock"] < c["T"]:
                     mech = self.stale_mech(c)
                     self.V(mech, f"tick {self.rig.k}: line {node.id} ({node.threshold_part.strip()} {node.name}) started while "
@@ -566,6 +592,132 @@ def gen_case(rnd: random.Random, max_depth: int, ticks: int):
     return {"text": text, "vol": vol, "ft": ft, "tot": tot, "sched": sched, "kinds": kinds, "ticks": ticks}
 
 
+# ------------------------------------------------------------------------------------------------
+# long-run stratum: thresholds of 1000 s and more (clock strings of five and more integer+fraction characters, float
+# sums of ten thousand 0.1 s increments), same monitor, same oracle
+def long_thr(rnd: random.Random, base: str, lo_s: int, hi_s: int) -> str:
+    """Threshold text in `base` whose exact value lies in [lo_s, hi_s] seconds, on a grid finer than the tick (0.05 s,
+    0.001 min = 0.06 s, 0.00001 h = 0.036 s): most values are neither whole seconds nor on the 0.1 s tick grid."""
+    if base == "s":
+        n = rnd.randint(lo_s * 20, hi_s * 20)
+        txt = f"{n // 20}.{(n % 20) * 5:02d}"
+    elif base == "min":
+        n = rnd.randint(-(-lo_s * 1000 // 60), hi_s * 1000 // 60)
+        txt = f"{n // 1000}.{n % 1000:03d}"
+    else:
+        n = rnd.randint(-(-lo_s * 100000 // 3600), hi_s * 100000 // 3600)
+        txt = f"{n // 100000}.{n % 100000:05d}"
+    if rnd.random() < 0.7:
+        txt = txt.rstrip("0")
+        txt = txt + "0" if txt.endswith(".") and rnd.random() < 0.5 else txt.rstrip(".")
+    return txt
+
+
+def gen_long_case(rnd: random.Random, base: str, place: str, very_long: bool):
+    """One long threshold T1 in [1000 s, 1060 s] at root level or inside a block (Base s/min/h), followed by further
+    thresholds that fall due a little later on the other clock (other Base units), optionally (thorough tier) a last
+    threshold of 10 000 s and more; Pause/Hold windows anywhere in the run and around the instant T1 falls due."""
+    r = rnd
+    lines: list[str] = []
+    n = [0]
+
+    def lab():
+        n[0] += 1
+        return f"m{n[0]}"
+
+    def short(b):
+        return r.choice(G3.THR[b])
+
+    if base != "min" or r.random() < 0.7:
+        lines.append(f"Base: {base}")                      # Base min is the default
+    for _ in range(r.randint(0, 2)):
+        lines.append(r.choice([f"Mark: {lab()}", f"Wait: {r.choice(G3.WAITS)}", f"{short(base)} Mark: {lab()}", "Short"]))
+    t1_lo = r.choice([1000, 1000, 1010, 1030])
+    t1 = long_thr(r, base, t1_lo, t1_lo + 30)
+    t1_s = Fraction(t1) * TIME_F[base]
+    due = t1_s                                             # rough scope time at which the method is expected to be here
+    if place == "root":
+        lines.append(f"{t1} " + r.choice([f"Mark: {lab()}", f"Mark: {lab()}", "Short", f"Wait: {r.choice(G3.WAITS)}"]))
+        if r.random() < 0.5:
+            lines.append(f"Wait: {r.choice(G3.WAITS)}")
+        b2 = r.choice(["s", "min", "h"])
+        if b2 != base:
+            lines.append(f"Base: {b2}")
+        pre = f"{short(b2)} " if r.random() < 0.3 else ""
+        lines.append(f"{pre}Block: b{lab()}")
+        lines.append(f"    {short(b2)} Mark: {lab()}")
+        lines.append("    " + r.choice(["End block", "End blocks"]))
+    else:
+        pre = f"{short(base)} " if r.random() < 0.3 else ""
+        lines.append(f"{pre}Block: b{lab()}")
+        if r.random() < 0.4:
+            lines.append(f"    Mark: {lab()}")
+        lines.append(f"    {t1} " + r.choice([f"Mark: {lab()}", f"Mark: {lab()}", "Short"]))
+        b2 = base
+        if r.random() < 0.6:
+            b2 = r.choice(["s", "min", "h"])
+            if b2 != base:
+                lines.append(f"    Base: {b2}")
+            lo = int(t1_s) + 1
+            lines.append(f"    {long_thr(r, b2, lo, lo + 3)} Mark: {lab()}")
+            due = lo + 3
+        lines.append("    " + (r.choice(["End block", "End blocks"]) if r.random() < 0.8
+                               else f"{long_thr(r, b2, int(due) + 1, int(due) + 2)} End block"))
+        due += 3
+    # back at root level: thresholds on the scope clock that fall due shortly after (or just before) this point
+    for _ in range(r.randint(1, 2)):
+        b3 = r.choice(["s", "min", "h"])
+        if b3 != b2:
+            lines.append(f"Base: {b3}")
+            b2 = b3
+        lo = int(due) + r.randint(0, 4)
+        lines.append(f"{long_thr(r, b3, lo, lo + 3)} " + r.choice([f"Mark: {lab()}", "Short"]))
+        due = lo + 3
+    if very_long:
+        b4 = r.choice(["s", "min", "h"])
+        if b4 != b2:
+            lines.append(f"Base: {b4}")
+        t_lo = r.choice([10000, 10000, 10020])
+        t4 = long_thr(r, b4, t_lo, t_lo + 20)
+        if r.random() < 0.5:
+            lines.append(f"{t4} Mark: {lab()}")
+            due = Fraction(t4) * TIME_F[b4]
+        else:
+            lines.append(f"Block: b{lab()}")
+            lines.append(f"    {t4} Mark: {lab()}")
+            lines.append("    End block")
+            due = due + Fraction(t4) * TIME_F[b4]
+        lo = int(due) + 1
+        lines.append(f"{long_thr(r, b4, lo, lo + 2)} Mark: {lab()}")
+        due = lo + 2
+    text = "\n".join(lines) + "\n"
+    # user schedule: windows anywhere, and one or two close to the tick in which T1 falls due
+    sched, kinds = [], []
+    cross = int(t1_s * 10)
+    spots = []
+    if r.random() < 0.6:
+        spots += [r.randint(5, cross - 200) for _ in range(r.randint(1, 2))]
+    if r.random() < 0.6:
+        spots += [cross + r.randint(-25, 12)]
+    extra = 0
+    for t in sorted(spots):
+        t += extra
+        a = r.choice(["Pause", "Hold", "Hold", "PauseHold"])
+        ln = r.randint(1, 14)
+        if a == "Pause":
+            sched += [[t, "Pause"], [t + ln, "Unpause"]]
+        elif a == "Hold":
+            sched += [[t, "Hold"], [t + ln, "Unhold"]]
+        else:
+            sched += [[t, "Pause"], [t + 1, "Hold"], [t + ln + 1, "Unpause"], [t + ln + 3, "Unhold"]]
+        kinds.append(a)
+        extra += ln + 3
+    sched.sort(key=lambda x: x[0])
+    ticks = int(due * 10) + extra + 400
+    return {"text": text, "vol": False, "ft": [0.0], "tot": [], "sched": sched, "kinds": kinds, "ticks": ticks,
+            "long": [base, place, bool(very_long)]}
+
+
 def check_case(case, res: Result):
     from opv.rigs import engine_rig as R
     install()
@@ -593,9 +745,9 @@ def check_case(case, res: Result):
                     rejected += 1
             if rig.state in ("Paused", "Holding"):
                 mon.pause_hold_ticks += 1
-            rig.hw.inputs["FT01"] = case["ft"][k]
+            rig.hw.inputs["FT01"] = case["ft"][min(k, len(case["ft"]) - 1)]     # the last scripted value persists
             if case["vol"]:
-                rig.hw.inputs["Tot"] = case["tot"][k]
+                rig.hw.inputs["Tot"] = case["tot"][min(k, len(case["tot"]) - 1)]
             rig.tick(catch=True)
             mon.after_engine_tick()
             if rig.tick_exc:
@@ -619,6 +771,13 @@ def check_case(case, res: Result):
         res.count("cases_with_pause_or_hold")
     if "Restart" in case["kinds"] or "StopStart" in case["kinds"]:
         res.count("cases_with_restart_or_stopstart")
+    if case.get("long"):
+        res.count("long_runs")
+        res.count("long_run_engine_ticks", rig.k)
+        if case["kinds"]:
+            res.count("long_runs_with_pause_or_hold")
+        if rig.errors or rig.tick_exc:
+            res.count("long_runs_ending_in_error")
     if rig.errors:
         res.count("cases_ending_in_method_error")
     res.count("schedule_commands_rejected", rejected)
@@ -633,12 +792,25 @@ def check_case(case, res: Result):
         res.violation(mech, msg, case)
 
 
+LONG_COMBOS = [(b, pl) for pl in ("root", "block") for b in ("s", "min", "h")]
+
+
 def plan(tier, seed):
     n = 2000 if tier == "quick" else 40000
     shards = 16 if tier == "quick" else 48
     per = n // shards
-    return [{"seed": seed * 1000003 + i, "n": per, "max_depth": 3 if tier == "quick" else 4,
-             "ticks": 150 if tier == "quick" else 220} for i in range(shards)]
+    n_long = 2 if tier == "quick" else 3
+    out = []
+    for i in range(shards):
+        # long-run stratum: a fixed handful of runs per shard, Base x place rotated so that every combination is run on
+        # every seed; in the thorough tier the last long run of a shard also has a threshold of 10 000 s and more
+        long = []
+        for j in range(n_long):
+            b, pl = LONG_COMBOS[(i * n_long + j + seed) % len(LONG_COMBOS)]
+            long.append([b, pl, tier != "quick" and j == n_long - 1])
+        out.append({"seed": seed * 1000003 + i, "n": per, "max_depth": 3 if tier == "quick" else 4,
+                    "ticks": 150 if tier == "quick" else 220, "long": long})
+    return out
 
 
 def run_shard(spec):
@@ -647,6 +819,9 @@ def run_shard(spec):
     for _ in range(spec["n"]):
         case = gen_case(rnd, spec.get("max_depth", 3), spec.get("ticks", 150))
         check_case(case, res)
+    for j, (base, place, very_long) in enumerate(spec.get("long", ())):
+        lrnd = random.Random(spec["seed"] * 7919 + 101 + j)       # own stream: the short-run workload is unchanged
+        check_case(gen_long_case(lrnd, base, place, very_long), res)
     res.count("hook_hits_eval", HITS["eval"])
     res.count("hook_hits_started", HITS["started"])
     return res
